@@ -72,7 +72,22 @@ func (c *Ctx) coroModel() *coroModel {
 			if isTestFile(c.P, fd.Pos()) || strings.Contains(rp.PkgPath, "/test") || strings.HasSuffix(rp.PkgPath, "/dst") {
 				continue
 			}
+			var regCalls []*ast.CallExpr
 			for _, call := range callsInDeep(fd.Body) {
+				fn, ok := calleeOf(rp.TypesInfo, call).(*types.Func)
+				if !ok || !isFuncOf(fn, pkgSystem, "System") || len(call.Args) != 2 {
+					continue
+				}
+				// table-driven registration: `for _, r := range table { system.AddOnRequest(r.kind, r.coroutine) }`
+				if rows := tableRows(rp, fd, call); len(rows) > 0 {
+					for _, row := range rows {
+						regCalls = append(regCalls, &ast.CallExpr{Fun: call.Fun, Lparen: call.Lparen, Args: row, Rparen: call.Rparen})
+					}
+					continue
+				}
+				regCalls = append(regCalls, call)
+			}
+			for _, call := range regCalls {
 				fn, ok := calleeOf(rp.TypesInfo, call).(*types.Func)
 				if !ok || !isFuncOf(fn, pkgSystem, "System") || len(call.Args) != 2 {
 					continue
@@ -645,6 +660,18 @@ func (pe *provEnv) submissionDesc(e ast.Expr) string {
 			}
 		}
 	}
+	// built by a helper of the package (`storeSubmission(tags, commands...)`): the helper's literal,
+	// with the command list taken from the call's arguments
+	var helperCall *ast.CallExpr
+	var helperSig *types.Signature
+	if call, isCall := e.(*ast.CallExpr); isCall {
+		if hl := helperLiteral(pe.pk, call); hl != nil && isNamed(info.Types[hl].Type, pkgTAio, "Submission") {
+			if fn, ok := calleeOf(info, call).(*types.Func); ok {
+				helperCall, helperSig = call, fn.Type().(*types.Signature)
+				e = hl
+			}
+		}
+	}
 	cl, ok := e.(*ast.CompositeLit)
 	if !ok {
 		return "?"
@@ -660,6 +687,34 @@ func (pe *provEnv) submissionDesc(e ast.Expr) string {
 		case "Kind":
 			kind = pe.provD(kv.Value, 0)
 		case "Store":
+			if helperCall != nil {
+				done := false
+				ast.Inspect(kv.Value, func(n ast.Node) bool {
+					ckv, ok := n.(*ast.KeyValueExpr)
+					if !ok || exprString(ckv.Key) != "Commands" {
+						return true
+					}
+					if pid, ok := ast.Unparen(ckv.Value).(*ast.Ident); ok {
+						for i := 0; i < helperSig.Params().Len(); i++ {
+							if helperSig.Params().At(i) != info.Uses[pid] {
+								continue
+							}
+							var ks []string
+							if helperSig.Variadic() && i == helperSig.Params().Len()-1 && !helperCall.Ellipsis.IsValid() {
+								ks, _ = pe.commandKinds(&ast.CompositeLit{Elts: helperCall.Args[i:]})
+							} else if i < len(helperCall.Args) {
+								ks, _ = pe.commandKinds(helperCall.Args[i])
+							}
+							cmds = strings.Join(ks, "+")
+							done = true
+						}
+					}
+					return false
+				})
+				if done {
+					continue
+				}
+			}
 			ast.Inspect(kv.Value, func(n ast.Node) bool {
 				if ckv, ok := n.(*ast.KeyValueExpr); ok && exprString(ckv.Key) == "Commands" {
 					ks, _ := pe.commandKinds(ckv.Value)
@@ -853,6 +908,7 @@ func (m *coroModel) structLits(pkg, typeName string) []*cmdLit {
 				}
 			}
 			l.Conds = cf.Env.enclosingConds(cf.Decl.Body, cl)
+			l.Conds = append(l.Conds, m.flowConds(l, cf)...)
 			for _, v := range m.patchedVariants(l, cf) {
 				out = append(out, m.hoist(v, cf)...)
 			}
@@ -1554,4 +1610,157 @@ func (pe *provEnv) governingConds(root ast.Node, node ast.Node, guards bool) []s
 		}
 	}
 	return out
+}
+
+// tableRows: for a call whose arguments are fields of the value variable of a range over a slice
+// literal of struct literals (a registration table), the argument lists the call receives, one per
+// row of the table.
+func tableRows(pk *packages.Package, fd *ast.FuncDecl, call *ast.CallExpr) [][]ast.Expr {
+	info := pk.TypesInfo
+	var rangeVar types.Object
+	var fields []string
+	for _, a := range call.Args {
+		se, ok := ast.Unparen(a).(*ast.SelectorExpr)
+		if !ok {
+			return nil
+		}
+		id, ok := ast.Unparen(se.X).(*ast.Ident)
+		if !ok {
+			return nil
+		}
+		o := info.Uses[id]
+		if rangeVar != nil && o != rangeVar {
+			return nil
+		}
+		rangeVar = o
+		fields = append(fields, se.Sel.Name)
+	}
+	if rangeVar == nil {
+		return nil
+	}
+	var rs *ast.RangeStmt
+	for _, a := range enclosing(fd.Body, call) {
+		if r, ok := a.(*ast.RangeStmt); ok {
+			if vid, ok := r.Value.(*ast.Ident); ok && info.Defs[vid] == rangeVar {
+				rs = r
+			}
+		}
+	}
+	if rs == nil {
+		return nil
+	}
+	// the ranged table: a variable initialised by a composite literal (package level or local)
+	tid, ok := ast.Unparen(rs.X).(*ast.Ident)
+	if !ok {
+		return nil
+	}
+	tobj := info.Uses[tid]
+	var lit *ast.CompositeLit
+	for _, f := range pk.Syntax {
+		ast.Inspect(f, func(n ast.Node) bool {
+			switch x := n.(type) {
+			case *ast.ValueSpec:
+				for i, nm := range x.Names {
+					if info.Defs[nm] == tobj && i < len(x.Values) {
+						lit, _ = ast.Unparen(x.Values[i]).(*ast.CompositeLit)
+					}
+				}
+			case *ast.AssignStmt:
+				for i, l := range x.Lhs {
+					if lid, ok := l.(*ast.Ident); ok && info.Defs[lid] == tobj && i < len(x.Rhs) {
+						lit, _ = ast.Unparen(x.Rhs[i]).(*ast.CompositeLit)
+					}
+				}
+			}
+			return true
+		})
+	}
+	if lit == nil {
+		return nil
+	}
+	// element struct type: field name -> position
+	var st *types.Struct
+	if sl, ok := info.Types[lit].Type.Underlying().(*types.Slice); ok {
+		st, _ = sl.Elem().Underlying().(*types.Struct)
+	}
+	if st == nil {
+		return nil
+	}
+	pos := map[string]int{}
+	for i := 0; i < st.NumFields(); i++ {
+		pos[st.Field(i).Name()] = i
+	}
+	var out [][]ast.Expr
+	for _, el := range lit.Elts {
+		row, ok := ast.Unparen(el).(*ast.CompositeLit)
+		if !ok {
+			return nil
+		}
+		vals := map[string]ast.Expr{}
+		for i, e := range row.Elts {
+			if kv, ok := e.(*ast.KeyValueExpr); ok {
+				vals[exprString(kv.Key)] = kv.Value
+			} else if i < st.NumFields() {
+				vals[st.Field(i).Name()] = e
+			}
+		}
+		var args []ast.Expr
+		for _, f := range fields {
+			v, ok := vals[f]
+			if !ok {
+				return nil
+			}
+			args = append(args, v)
+		}
+		out = append(out, args)
+	}
+	return out
+}
+
+// flowConds: an object built once into a local (`sub := &callback.Callback{…}`) and handed on as a
+// whole at a single place (`cb = sub` under `rows == 1`, `Callback: sub`) is governed by the
+// conditions of that place as well: that is where it becomes part of a command or a response.
+func (m *coroModel) flowConds(l *cmdLit, cf *coroFunc) []string {
+	info := m.Pk.TypesInfo
+	body := cf.Decl.Body
+	chain := enclosing(body, l.Lit)
+	var holder types.Object
+	for i := len(chain) - 1; i >= 0; i-- {
+		switch x := chain[i].(type) {
+		case *ast.UnaryExpr, *ast.ParenExpr:
+			continue
+		case *ast.AssignStmt:
+			if len(x.Lhs) == 1 && len(x.Rhs) == 1 {
+				if id, ok := x.Lhs[0].(*ast.Ident); ok {
+					if holder = info.Defs[id]; holder == nil {
+						holder = info.Uses[id]
+					}
+				}
+			}
+		}
+		break
+	}
+	if holder == nil {
+		return nil
+	}
+	var sites []ast.Node
+	ast.Inspect(body, func(n ast.Node) bool {
+		switch x := n.(type) {
+		case *ast.AssignStmt:
+			for i, r := range x.Rhs {
+				if isObj(info, r, holder) && i < len(x.Lhs) && !isObj(info, x.Lhs[i], holder) {
+					sites = append(sites, x)
+				}
+			}
+		case *ast.KeyValueExpr:
+			if isObj(info, x.Value, holder) {
+				sites = append(sites, x)
+			}
+		}
+		return true
+	})
+	if len(sites) != 1 {
+		return nil
+	}
+	return cf.Env.enclosingConds(body, sites[0])
 }
